@@ -147,7 +147,7 @@ def r_C33c_C34g(root):
     # ---- C34.g
     fd = sem.info(drv); cfg = fd.cfg
     sorts = [c for c in calls(drv, own=True) if callee_name(c) == "sort" and "pos_crossref_list" in ast.unparse(c.func)]
-    wl = next((n for n in own_nodes(drv) if isinstance(n, ast.While) and "resolved_count" in ast.unparse(n.test)), None)
+    wl = next((n for n in own_nodes(drv) if isinstance(n, ast.While) and any(callee_name(c) == "resolve_one_step" for c in calls(n))), None)
     if wl is None: raise AnalysisError("resolution loop not found")
     inst += 1
     good = []
